@@ -123,9 +123,9 @@ def default_shrink_candidates(task, violation):
         t = json.loads(json.dumps(task))
         t["scenario"]["max_events"] = step + 2
         yield t
-    for fault_index in range(len(task.get("faults", []))):
+    for fault_index in range(len(scn.get("faults", []))):
         t = json.loads(json.dumps(task))
-        del t["faults"][fault_index]
+        del t["scenario"]["faults"][fault_index]
         yield t
     for section, options in list(scn.get("set", {}).items()):
         for option in list(options):
